@@ -950,6 +950,14 @@ def h_any(a, axis=None, **kw):
     return SBool(z3.Or(xs)) if xs else False
 
 
+def h_count_nonzero(a, axis=None, **kw):
+    """number of non-zero elements as a symbolic integer (no fork)"""
+    if axis is not None:
+        raise OutsideModel("count_nonzero(axis)")
+    xs = [zbool(x) if isinstance(x, (SBool, bool, real_np.bool_)) else zbool(x != 0) for x in a.a.ravel()]
+    return SInt(z3.Sum([z3.If(c, 1, 0) for c in xs]) if xs else z3.IntVal(0), "int")
+
+
 def h_flatnonzero(a):
     """indices of the non-zero elements of the flattened array (one fork per symbolic element)"""
     out = []
@@ -1417,7 +1425,7 @@ HANDLERS = dict(unique=h_unique, argmax=h_argmax, pad=h_pad, array_equal=h_array
                 flip=h_flip, squeeze=h_squeeze, expand_dims=h_expand_dims,
                 concatenate=h_concatenate, stack=h_stack, append=h_append, clip=h_clip,
                 any=h_any, all=h_all, sum=h_sum, dot=h_dot, can_cast=h_can_cast, shape=h_shape,
-                ndim=h_ndim, size=h_size, copy=h_copy, insert=h_insert, savetxt=h_savetxt, swapaxes=h_swapaxes, rollaxis=h_rollaxis, atleast_3d=h_atleast_3d, amax=h_amax, amin=h_amin, max=h_amax, min=h_amin, flatnonzero=h_flatnonzero,
+                ndim=h_ndim, size=h_size, copy=h_copy, insert=h_insert, savetxt=h_savetxt, swapaxes=h_swapaxes, rollaxis=h_rollaxis, atleast_3d=h_atleast_3d, amax=h_amax, amin=h_amin, max=h_amax, min=h_amin, flatnonzero=h_flatnonzero, count_nonzero=h_count_nonzero,
                 iscomplexobj=h_iscomplexobj, broadcast_to=h_broadcast_to)
 
 
